@@ -81,6 +81,22 @@ def path_s(path):
     return s
 
 
+PROMOTED = {}          # owner fn key -> list of promoted mini-bodies (filled by facts.Facts)
+_PROMOTED_BODIES = {}
+
+
+def _promoted_body(owner, idx):
+    k = (owner, idx)
+    b = _PROMOTED_BODIES.get(k)
+    if b is None:
+        fn = dict(PROMOTED[owner][idx])
+        fn.setdefault("key", "%s::promoted[%d]" % (owner, idx))
+        fn.setdefault("path", fn["key"])
+        b = Body(fn)
+        _PROMOTED_BODIES[k] = b
+    return b
+
+
 Def = namedtuple("Def", "kind bb idx node")  # kind: assign | call ; node: stmt | terminator
 Leaf = namedtuple("Leaf", "kind data path via")
 
@@ -740,6 +756,13 @@ class Body:
         else:
             c = op_const(x)
             if c is not None:
+                if "promoted" in c and c.get("promoted_of") in PROMOTED:
+                    lst = PROMOTED[c["promoted_of"]]
+                    if c["promoted"] < len(lst):
+                        pb = _promoted_body(c["promoted_of"], c["promoted"])
+                        inner = pb.trace({"l": 0, "p": []}, tuple(path))
+                        if inner and all(l.kind == "const" for l in inner):
+                            return [Leaf("const", l.data, l.path, _via) for l in inner]
                 return [Leaf("const", c, tuple(path), _via)]
             place = op_place(x)
             if place is None:
